@@ -24,6 +24,7 @@ type corsCfg struct {
 	Exposed []string
 	MaxAge  int
 	Creds   bool
+	Trace   bool // the router also has WithTrace: TRACE is a served method of every route
 	class   string
 }
 
@@ -49,6 +50,13 @@ const (
 )
 
 var corsRouteAllow0 = []string{"GET", "HEAD", "OPTIONS", "POST"}
+
+func corsAllow0(cfg corsCfg) []string {
+	if cfg.Trace {
+		return []string{"GET", "HEAD", "OPTIONS", "POST", "TRACE"}
+	}
+	return corsRouteAllow0
+}
 
 func hasAny(xs []string) bool { return contains(xs, "*") }
 
@@ -331,6 +339,11 @@ func runCORS(c *Ctx, prop string) {
 		}
 		cfg.class += fmt.Sprintf(" allowH=%v", cfg.AllowH)
 	}
+	if random && c.R.Chance(1, 4) {
+		cfg.Trace = true
+		cfg.class += " +WithTrace"
+		c.Class("cors_router_with_trace")
+	}
 	env := mon.NewEnv()
 	r := corsRouter(c, env, cfg, c.Case/len(cfgs))
 	c.Class("config_class_enumerated")
@@ -365,7 +378,7 @@ func runCORS(c *Ctx, prop string) {
 			c.Violate("CORS request panicked or nil handler", map[string]any{"config": cfg.class, "request": q.class})
 			return
 		}
-		allowSet := corsRouteAllow0
+		allowSet := corsAllow0(cfg)
 		if q.PathClass == "empty" {
 			allowSet = mon.AllowSet(o.Header.Get("Allow")) // what the server-wide handler itself says it serves
 		}
@@ -532,6 +545,10 @@ func corsRouter(c *Ctx, env *mon.Env, cfg corsCfg, pass int) *mux.Router[*mon.Hn
 		}
 	}()
 	rec := mux.WithRecovery(func(w http.ResponseWriter, v any) { w.WriteHeader(500) })
+	extra := []mux.Option{rec}
+	if cfg.Trace {
+		extra = append(extra, mux.WithTrace(env.NewHnd(mon.KTrace, "")))
+	}
 	var r *mux.Router[*mon.Hnd]
 	// an earlier CORS option of another meaning: the later one (the configuration under test) replaces it entirely,
 	// also when it configures no origin at all
@@ -541,14 +558,14 @@ func corsRouter(c *Ctx, env *mon.Env, cfg corsCfg, pass int) *mux.Router[*mon.Hn
 	}
 	switch pass % 4 {
 	case 1, 3:
-		g := env.NewGroup(other, rec)
+		g := env.NewGroup(append([]mux.Option{other}, extra...)...)
 		r = g.New("r", nil, own)
 		c.Class("router_made_by_group_with_other_cors_option")
 	case 2:
-		r = env.NewRouter("r", other, own, rec)
+		r = env.NewRouter("r", append([]mux.Option{other, own}, extra...)...)
 		c.Class("router_with_an_earlier_cors_option_overridden")
 	default:
-		r = env.NewRouter("r", own, rec)
+		r = env.NewRouter("r", append([]mux.Option{own}, extra...)...)
 	}
 	r.Handle("/c/{id}", env.NewHnd(mon.KRoute, "/c/{id}"), nil, "GET", "POST")
 	boom := env.NewHnd(mon.KRoute, "/boom/{id}")
@@ -586,6 +603,9 @@ func corsHistory(c *Ctx, prop string, cfg corsCfg, r *mux.Router[*mon.Hnd], env 
 		if live["GET"] {
 			set = append(set, "HEAD")
 		}
+		if cfg.Trace {
+			set = append(set, "TRACE")
+		}
 		sort.Strings(set)
 		return set
 	}
@@ -621,6 +641,7 @@ func corsHistory(c *Ctx, prop string, cfg corsCfg, r *mux.Router[*mon.Hnd], env 
 		c.Class("history_request_judged")
 		return true
 	}
+	cleaned := false
 	for step := 0; step < 12 && !c.Violated(); step++ {
 		repeat := ""
 		switch rnd.Intn(5) {
@@ -662,11 +683,55 @@ func corsHistory(c *Ctx, prop string, cfg corsCfg, r *mux.Router[*mon.Hnd], env 
 			}
 			ops = append(ops, fmt.Sprintf("Remove %v", ms))
 		default:
-			r.Remove("/c/{id}")
+			if rnd.Bool() {
+				r.Remove("/c/{id}")
+				ops = append(ops, "Remove all")
+			} else {
+				// everything goes (the /boom and /scribble routes too): the router is as new
+				r.Clean()
+				ops = append(ops, "Router.Clean()")
+				cleaned = true
+			}
 			live = map[string]bool{}
-			ops = append(ops, "Remove all")
 		}
 		cur := allow()
+		// the server-wide handler (empty request path) as a preflight target: it serves what is registered somewhere
+		if !c.Violated() {
+			wide := map[string]bool{"OPTIONS": true}
+			if cfg.Trace {
+				wide["TRACE"] = true
+			}
+			for m := range live {
+				wide[m] = true
+			}
+			if !cleaned { // /boom and /scribble are registered with GET and POST
+				wide["GET"], wide["POST"] = true, true
+			}
+			var ws []string
+			for m := range wide {
+				ws = append(ws, m)
+			}
+			sort.Strings(ws)
+			for _, acrm := range []string{"GET", "POST", "DELETE", "PUT", "PATCH"} {
+				q := corsReq{Method: "OPTIONS", PathClass: "empty", HasOrigin: true, Origin: "https://a.example", ACRM: acrm, class: fmt.Sprintf("after %v: OPTIONS with an empty path, acrm=%q", ops, acrm)}
+				hdr := map[string]string{"Origin": q.Origin, hACRM: acrm}
+				o := mon.Do(r, mon.Req{Method: "OPTIONS", Path: "", Header: hdr})
+				c.Eval()
+				c11, c12 := corsJudge(cfg, q, o.Status, o.Header, ws)
+				cm := c11
+				if prop == "C12" {
+					cm = c12
+				}
+				if o.Panicked {
+					cm = append(cm, fmt.Sprintf("panic: %v", o.Panic))
+				}
+				if len(cm) > 0 {
+					c.Violate(strings.Join(cm, "; "), map[string]any{"config": cfg.class, "request": q.class, "registered_somewhere": ws, "request_headers": hdr, "status": o.Status, "response_headers": o.Header})
+					return
+				}
+				c.Class("history_server_wide_preflight_judged")
+			}
+		}
 		if repeat != "" && !ask("OPTIONS", "https://a.example", repeat, "", cur) {
 			return // the browser repeats the preflight it sent just before the method was removed: first request after the removal
 		}
